@@ -361,7 +361,7 @@ class Gen:
         name = self.fresh(s)
         ctor = rng.choice(["rep", "rep", "simp", "cal", "multi"])
         if ctor in ("rep", "simp"):
-            args = {"cycles": rng.randint(0, 3), "state": [rng.choice(STATES[:2]) for _ in range(rng.choice([2, 3]))]}
+            args = {"cycles": rng.choice([0, 1, 1, 2, 2, 3]), "state": [rng.choice(STATES[:2]) for _ in range(rng.choice([2, 2, 3]))]}
         elif ctor == "multi":
             args = {"rounds": rng.sample([0, 1, 2], rng.randint(1, 2)), "state": [rng.choice(STATES[:2]) for _ in range(2)]}
         else:
@@ -412,7 +412,7 @@ class Gen:
             st["compact"] = rng.random() < 0.8
         if what == "FULL" and rng.random() < 0.3:
             st["alt"] = True
-        if self.n_checks < 12:
+        if self.n_checks < (4 if self.lib_handles else 12):
             st["check"] = True
             self.n_checks += 1
         self.emit(st)
